@@ -16,11 +16,36 @@ var alphabet = []string{
 	"\x1bb", "\x1bf", "\x1bd", "\x1b\x7f", "\x1bu", "\x1bl", "\x1bc", "\x1bt", "\x1by", "\x1b.", "\x1b1", "\x1b-", "\x1b<", "\x1b>", "\x1b?", "\x1b*", "\x1bp", "\x1bn", "\x1b\\", "\x1b#", "\x1br", "\x1b'", "\x1bw", "\x1bm", "\x1b|", "\x1b\x1e",
 	"\x18\x18", "\x18(", "\x18)", "\x18e", "\x18\x15", "\x18\x07", "\x18\x02", "\x18\x05", "\x18\x0e", "\x18\x0f", "\x18r", "\x18s", "\x18u", "\x18\x7f",
 	"\r",
+	// a numeric argument of a dozen digits (emacs: meta-digits; vi command mode: digits)
+	"\x1b9\x1b9\x1b9\x1b9\x1b9\x1b9\x1b9\x1b9\x1b9\x1b9\x1b9\x1b9", "999999999999", "\x1b-\x1b9\x1b9\x1b9\x1b9\x1b9\x1b9\x1b9\x1b9\x1b9\x1b9\x1b9",
 }
 
 var boolVars = []string{"convert-meta", "input-meta", "output-meta", "enable-bracketed-paste", "history-autosuggest",
 	"show-mode-in-prompt", "mark-modified-lines", "horizontal-scroll-mode", "completion-ignore-case", "menu-complete-display-prefix",
 	"autocomplete", "isearch-terminators", "revert-all-at-newline", "multiline-column", "multiline-column-numbered", "usage-hint-always"}
+
+// macroKeys are the sequences random macros are bound to and made of: a macro may contain its own
+// sequence, or that of another macro that contains it.
+var macroKeys = []string{"a", "x", "\\C-t", "\\ea", "\\C-x\\C-a", "(", "\\e1"}
+var macroParts = []string{"a", "x", "\\C-t", "\\ea", "\\C-x\\C-a", "(", "\\e1", "b", " ", "\\C-a", "\\C-k", "\\C-y", "\\C-xe", "\\C-x(", "\\C-x)", "\\eb", "\\C-r", "\\C-m", "\\e", "1", "\\C-_"}
+
+// randMacros: inputrc lines binding macros (possibly running themselves) and do-lowercase-version
+func randMacros(r *rand.Rand) string {
+	s := ""
+	for k := 1 + r.Intn(3); k > 0; k-- {
+		key := macroKeys[r.Intn(len(macroKeys))]
+		if r.Intn(5) == 0 {
+			s += fmt.Sprintf("\"%s\": do-lowercase-version\n", key)
+			continue
+		}
+		m := ""
+		for j := 1 + r.Intn(4); j > 0; j-- {
+			m += macroParts[r.Intn(len(macroParts))]
+		}
+		s += fmt.Sprintf("\"%s\": \"%s\"\n", key, m)
+	}
+	return s
+}
 
 func randInputrc(r *rand.Rand) string {
 	s := ""
@@ -66,7 +91,56 @@ func init() {
 		gen: func(r *rand.Rand) Case {
 			sp := baseSpec(r)
 			sp.Fault = []string{"", "", "eof", "eio"}[r.Intn(4)]
-			c := Case{Specs: []Spec{sp}, Keys: hexChunks(randScript(r, 25)), Class: sp.Mode + "/fault=" + sp.Fault}
+			script := randScript(r, 25)
+			cls := sp.Mode + "/fault=" + sp.Fault
+			if r.Intn(2) == 0 {
+				// any inputrc may bind any command: every registered command is bound to a private sequence by the
+				// child (\C-x\C-z<2 letters>, in name order) and a third of the keys are such commands, by name
+				sp.ByName = true
+				for i := range script {
+					if r.Intn(3) == 0 {
+						n := r.Intn(216)
+						script[i] = fmt.Sprintf("\x18\x1a%c%c", 'a'+n/26, 'a'+n%26)
+						if r.Intn(4) == 0 { // with a numeric argument
+							script[i] = []string{"\x1b2", "\x1b-", "\x1b9"}[r.Intn(3)] + script[i]
+						}
+					}
+				}
+				cls += "/by-name"
+			}
+			if r.Intn(4) == 0 {
+				// macros: bound in the inputrc, recorded from the keyboard (emacs C-x ( ) e, vi q @), running each other
+				sp.Inputrc += randMacros(r)
+				sp.Patience = 10
+				extra := []string{"\x18(", "\x18)", "\x18e", "\x18e", "a", "x", "\x14", "\x1ba", "\x18\x01", "(", "\x1b1"}
+				if sp.Mode == "vi" {
+					extra = append(extra, "\x1b", "qa", "q", "@a", "@a", "qb", "@b", "@@", "i")
+				}
+				for i := range script {
+					if r.Intn(2) == 0 {
+						script[i] = extra[r.Intn(len(extra))]
+					}
+				}
+				cls += "/macros"
+			}
+			// A capped argument still asks for ten thousand repetitions, which multiply (yank, kill, yank): one
+			// such argument per session, none where macros repeat the script, is work that ends within the watchdog.
+			big := 1
+			if sp.Patience > 0 {
+				big = 0
+			}
+			for i := range script {
+				if len(script[i]) >= 12 && (script[i][0] == '9' || script[i][1] == '9' || script[i][1] == '-') {
+					if big == 0 {
+						script[i] = "1"
+					}
+					big = 0
+				}
+			}
+			if sp.Patience == 0 {
+				sp.Patience = 5
+			}
+			c := Case{Specs: []Spec{sp}, Keys: hexChunks(script), Class: cls}
 			c.Specs[0].Chunks = c.Keys
 			return c
 		},
@@ -82,7 +156,7 @@ func init() {
 				}
 			}
 			if tr.Spins > 64 {
-				fs = append(fs, Finding{"C01", "read-spin/" + c.Specs[0].Fault, fmt.Sprintf("%d consecutive failing reads without returning", tr.Spins), c})
+				fs = append(fs, Finding{"C01", "read-spin/" + c.Specs[0].Fault, fmt.Sprintf("%d consecutive failing reads without returning; at %s", tr.Spins, tr.SpinAt), c})
 			}
 			return fs
 		}})
